@@ -323,8 +323,12 @@ def corr_pack(ctx: Ctx, drv):
 
 
 def run(ctx: Ctx):
+    from ..translate import gen as _gen
+    _gen.regenerate(ctx, ["BasisCount"])
     leanproj.check_theorems(ctx, MODULE, THEOREMS)
-    from .registry import THEOREMS_C05B, THEOREMS_C05C
+    from .registry import THEOREMS_BASISTIE, THEOREMS_C05B, THEOREMS_C05C
+    # translator tie: the bound between real and zero-padding orbitals, as every site of the source computes it now
+    leanproj.check_theorems(ctx, "PyseqmVerif.Properties.BasisTie", [t for t in THEOREMS_BASISTIE if "d_class" not in t])
     leanproj.check_theorems(ctx, "PyseqmVerif.Properties.C05b", THEOREMS_C05B)
     leanproj.check_theorems(ctx, "PyseqmVerif.Properties.C05c", THEOREMS_C05C)
     drv = leanproj.Driver()
